@@ -483,6 +483,35 @@ class Consumer : public ASTConsumer {
         if (it != D.ids.end()) b["looptarget"] = it->second;
       }
       if (B->hasNoReturnElement()) b["noreturn"] = true;
+      if (const Stmt* L = B->getLabel()) {
+        // switch labels: `case K:` (also the GNU range form) and `default:`; stacked labels (case 1: case 2:) nest
+        json::Array cases;
+        const Stmt* cur = L;
+        bool isdef = false;
+        while (cur) {
+          if (auto* CS = dyn_cast<CaseStmt>(cur)) {
+            int64_t lo, hi;
+            if (D.constValue(CS->getLHS(), lo)) {
+              hi = lo;
+              if (CS->getRHS()) D.constValue(CS->getRHS(), hi);
+              json::Array pr;
+              pr.push_back(lo);
+              pr.push_back(hi);
+              cases.push_back(std::move(pr));
+            }
+            cur = CS->getSubStmt();
+            if (!(cur && (isa<CaseStmt>(cur) || isa<DefaultStmt>(cur)))) break;
+          } else if (auto* DS = dyn_cast<DefaultStmt>(cur)) {
+            isdef = true;
+            cur = DS->getSubStmt();
+            if (!(cur && (isa<CaseStmt>(cur) || isa<DefaultStmt>(cur)))) break;
+          } else {
+            break;
+          }
+        }
+        if (!cases.empty()) b["cases"] = std::move(cases);
+        if (isdef) b["default"] = true;
+      }
       blocks.push_back(std::move(b));
     }
     c["blocks"] = std::move(blocks);
